@@ -352,7 +352,14 @@ def run_sm(pid, tier, seed, replay, t0, extra_cov=None, extra_viol=0, extra_rc=0
     if not replay:
         import tracecheck
         rnd = [s_ for s_ in scs if not s_["id"].startswith("tlc-")]
-        tv = tracecheck.validate(rnd, log_path, wd, name="trace." + pid, prop=pid, max_runs=300 if tier == "quick" else 2500)
+        try:
+            tv = tracecheck.validate(rnd, log_path, wd, name="trace." + pid, prop=pid, max_runs=300 if tier == "quick" else 2500)
+        except vlib.ToolError as ex:
+            # the verdict does not depend on this step (it only reports drift): a run the design model cannot even
+            # explore in time - e.g. a machine that hangs - must not turn the property's verdict into a tool error
+            print("SPEC-DRIFT property=%s trace validation against the design model did not complete: %s" % (pid, str(ex)[:200]))
+            tv["skipped"] = {"trace validation did not complete": len(rnd)}
+            drift += 1
         bad = len(tv["rejected"]) + len(tv["drift"])
         if bad:
             first_bad = (tv["rejected"] + tv["drift"])[0]
